@@ -36,6 +36,16 @@ impl Ctx {
         }
         self.part.violation(Violation { signature: format!("{}:{}", rule, site), rule: rule.to_string(), explanation, replay });
     }
+    /// Like `owned_violation`, but the (possibly large) detail is only built for the first witness of a signature.
+    pub fn owned_violation_with(&mut self, owner: &str, rule: &str, site: &str, explanation: String, detail: impl FnOnce() -> Json) {
+        if owner != self.prop {
+            self.part.count(&format!("findings_owned_by_{}", owner), 1);
+        } else if self.part.seen(&format!("{}:{}", rule, site)) {
+            self.part.count("violations_raw", 1);
+        } else {
+            self.violation(rule, site, explanation, detail());
+        }
+    }
     /// Report a violation of a rule owned by `owner`; when another property is being decided it is only counted.
     pub fn owned_violation(&mut self, owner: &str, rule: &str, site: &str, explanation: String, detail: Json) {
         if owner == self.prop {
